@@ -11,18 +11,27 @@ package mimc
 //@ assumed interface fr.ByteOrder (implemented by fr.BigEndian / fr.LittleEndian, whose contracts are proved under C08): the decoder reads only its 32-byte argument and returns a nil error exactly for canonical encodings
 //@ end
 
+// (added) every block reported as absorbed went through the configured byte-order decoder (one successful call of
+// d.byteOrder.Element per BlockSize bytes reported): a short write is padded and decoded like any other block, so the
+// configured byte order and the canonical check apply to it too.
 //@ func digest.Write
 //@ layer ring fr.Element
 //@ option nomerge
 //@ option strict-slice-len
+//@ ghost decoded = 0
+//@ cut after call Element #*
+//@ + optional
+//@ + ghost decoded = decoded + 1
 //@ loop 0
-//@ + invariant[aligned] 0 <= start && start % BlockSize == 0
+//@ + havoc decoded
+//@ + invariant[aligned] 0 <= start && start % BlockSize == 0 && decoded * BlockSize == start
 //@ + invariant[pending] len(d.data) * BlockSize == old(len(d.data)) * BlockSize + start && forall(j, 0, old(len(d.data)), d.data[j] == old(d.data[j]))
 //@ ensures[accept-length] isnil(result1) ==> len(p) % BlockSize == 0 || len(p) < BlockSize
 //@ ensures[accept-count] isnil(result1) ==> result0 == len(p) || (len(p) < BlockSize && result0 == BlockSize)
 //@ ensures[reject-count] !isnil(result1) ==> result0 == 0
 //@ ensures[keeps-earlier] len(d.data) >= old(len(d.data)) && forall(j, 0, old(len(d.data)), d.data[j] == old(d.data[j]))
 //@ ensures[absorbed-count] isnil(result1) ==> len(d.data) * BlockSize == old(len(d.data)) * BlockSize + result0
+//@ ensures[decoded-by-the-codec] isnil(result1) ==> decoded * BlockSize == result0
 //@ modifies d
 //@ end
 
